@@ -66,6 +66,17 @@ CLAIMED = {
             "buffer; all exported routines run under AddressSanitizer+UBSan with exact-size caller buffers",
             "partial: only the rolling-buffer index arithmetic is proved, the rest is sanitizer correspondence",
             "Coq proof over translator output (partial) + ASan/UBSan correspondence"),
+    "C17": ("Coq theorems: Needleman-Wunsch value = optimum over all grid paths / global alignments under the code's cost "
+            "function (instance of the generic grid DP over (Z,min,+)); the traceback through the recorded arrows "
+            "realises the value for every priority order; score matrix, value and traceback compared exactly with the "
+            "extracted model, value with an independent brute-force optimum, alignment strings with a checker",
+            "dp.dp / best_alignment hand-modelled, tied by exact correspondence; F12 (border gap) and F31 recorded",
+            "Coq proof (grid DP instance) + exact correspondence + brute force"),
+    "C19": ("Coq theorems over the reals for the seven closed-form expressions REGENERATED from similarity.py: "
+            "antitone/monotone, value 1 at distance 0, range [0,1]; docstring of 'reverse' refuted; parameter "
+            "derivation, dispatch, keep_sign and re-application checked on float arrays",
+            "real-number axioms of the standard library; rounding of exp/division not modelled",
+            "Coq proof (Reals) over translator output + correspondence"),
 }
 
 
